@@ -357,6 +357,7 @@ func (w *world) genLifecycle() string {
 	fmt.Fprintf(&sb, "def poolPuts : List (String × String) := %s\n\n", leanList(ps, "  "))
 	fmt.Fprintf(&sb, "def copyOuts : List (String × Bool) := %s\n\n", leanList(copyOuts, "  "))
 	fmt.Fprintf(&sb, "/-- storage of the value a parser puts into an optional-parameter container: fresh (make / append to nil), alias (a slice of a parameter), unknown -/\ndef optionValueProv : List (String × String) := %s\n\n", leanList(provs, "  "))
+	sb.WriteString(w.genReaderProv())
 	sb.WriteString(w.genGlobals())
 	sb.WriteString("end SmsVerif.Gen\n")
 	return sb.String()
